@@ -459,6 +459,10 @@ pub enum CStyle {
     Line4,
     /// `/*** cN */` (not a doc comment)
     Block3,
+    /// two-line `//` paragraph whose first line is far too long (re-flowed by wrap_comments)
+    LongPara,
+    /// the same as a `///` doc comment
+    LongDoc,
 }
 
 pub static CSTYLES: &[CStyle] = &[
@@ -480,6 +484,12 @@ pub fn comment_text(style: CStyle, n: usize) -> String {
         CStyle::BlockMulti => format!("\n/* c{n} first\n   second line */\n"),
         CStyle::Line4 => format!("\n//// c{n} here\n"),
         CStyle::Block3 => format!(" /*** c{n} here */ "),
+        CStyle::LongPara => format!(
+            "\n// c{n} Lorem ipsum dolor sit amet, consectetur adipiscing elit, sed do eiusmod tempor incididunt ut labore et dolore magna aliqua\n// Ut enim ad minim veniam, quis nostrud exercitation ullamco laboris nisi ut aliquip ex ea commodo consequat.\n"
+        ),
+        CStyle::LongDoc => format!(
+            "\n/// d{n} Lorem ipsum dolor sit amet, consectetur adipiscing elit, sed do eiusmod tempor incididunt ut labore et dolore magna aliqua\n/// Ut enim ad minim veniam, quis nostrud exercitation ullamco laboris nisi ut aliquip ex ea commodo consequat.\n"
+        ),
     }
 }
 
